@@ -6,7 +6,9 @@ cd "$(dirname "$0")/.."
 for D in seeded/$P-*; do
   [ -f "$D/patch.diff" ] || continue
   S=$(mktemp -d /tmp/sr.XXXXXX); cp "$D/patch.diff" "$S/change1.diff"; cp "$D/demo.py" "$S/demo1.py"
-  O=$(SKIP_TESTS=1 tools/seed_eval.sh "$P" "$S" 1 "$T" 2>&1)
+  O=$(KEEP_REPLAYS="$S/rep" SKIP_TESTS=1 tools/seed_eval.sh "$P" "$S" 1 "$T" 2>&1)
+  # side effect: the shrunk failing cases join the saved-input corpus regress/<P>/ (only those that hold on /repo)
+  [ -d "$S/rep" ] && [ "$NO_INGEST" != "1" ] && /venv/bin/python tools/harvest_corpus.py --ingest "$P" "seed-$(basename $D)" "$S/rep" >/dev/null 2>&1
   if echo "$O" | grep -q "PATCH-FAILED"; then R="patch-no-longer-applies"
   elif echo "$O" | grep -q "^VIOLATION"; then R="caught $(echo "$O" | grep -o 'signature=[^ ]*' | head -1)"
   else R="MISSED ($(echo "$O" | grep -o 'demo_on_patched=[0-9]'))"; fi
